@@ -145,7 +145,12 @@ def build(case, faults: bool):
                   {"id": "m", "op": "op", "name": "map_", "args": [{"fn": "F"}, {"ts": "d"}], "has_out": True},
                   {"id": "err", "op": "errcap", "of": "m"},
                   {"id": "r_m", "op": "node", "ins": ["m"], "deep": True, "valid": []},
-                  {"id": "r_err", "op": "node", "ins": ["err"], "deep": True, "valid": []}]
+                  {"id": "r_err", "op": "node", "ins": ["err"], "deep": True, "valid": []},
+                  # the same (intern-eligible) node definition on the key set of the ordinary output and on the key set of the ERROR
+                  # output - same producer, same path, same schema TSS[int]: they must stay two nodes
+                  {"id": "kA", "op": "node", "ins": [{"r": "m", "keyset": True}], "out": "TS[int]", "fn": "count", "uniq": False, "log_inputs": False},
+                  {"id": "kE", "op": "node", "ins": [{"r": "err", "keyset": True}], "out": "TS[int]", "fn": "count", "uniq": False, "log_inputs": False},
+                  {"id": "r_kA", "op": "node", "ins": ["kA"]}, {"id": "r_kE", "op": "node", "ins": ["kE"]}]
     prog = {"start": 0, "end": end, "stmts": stmts}
     if subs:
         prog["subs"] = subs
@@ -278,6 +283,15 @@ def check(case, ctx) -> Result:
             res.violations.append(Viol("wrapped_output_differs_later", f"outside the throw cycles the wrapped graph's output is {got_out[:8]}, fault-free {exp_out[:8]}", feats))
     else:
         live, bad = case["keys"]["live"], case["keys"]["bad"]
+        # the "failed keys" monitor watches the error output's key set only: nothing in the fault-free run, and never a tick in a
+        # cycle without a failure in the faulty one
+        ke0 = [t for t, _, _ in tr0.stream("r_kE")]
+        ke = [t for t, _, _ in tr.stream("r_kE")]
+        thr_t = {d["t"] for d in tr.user_evals if d["x"].get("throw")}
+        if ke0:
+            res.violations.append(Viol("error_under_wrong_key", f"a consumer of the map's ERROR key set ticked at {ke0[:8]} in the fault-free run (the ordinary key set's consumer ticked at {[t for t, _, _ in tr0.stream('r_kA')][:8]})", dict(feats, where="error_key_set")))
+        elif ke and not thr_t:
+            res.violations.append(Viol("error_under_wrong_key", f"a consumer of the map's ERROR key set ticked at {ke[:8]} although no child threw", dict(feats, where="error_key_set")))
         bad_seen = {}
         for d in tr.evals_of("r_err", "r"):
             i = d["ins"][0]
